@@ -38,10 +38,31 @@ PROP_RULE = ("a case is a history (random initial dataset with default and named
 # ---------------------------------------------------------------------------------------------
 # rendering: lexical values (dictionary strings), SPARQL text, Coq terms
 # ---------------------------------------------------------------------------------------------
+# lexical forms at the border of `is_probable_absolute_iri` (scheme = ASCII letter, then ASCII letters/digits/+/-/.)
+SPECIAL_IRI = {30: "urn:x30", 31: "a+b.c-1:z", 32: "x:", 33: "Z9:y:z"}
+SPECIAL_PLAIN = {30: "1a:b", 31: ":x", 32: "a_b:c", 33: "\u00e9:x", 34: "ab", 35: "+a:b"}
+
+
+def is_probable_absolute_iri(v):
+    if ":" not in v:
+        return False
+    scheme = v.split(":", 1)[0]
+    return (len(scheme) > 0 and scheme[0].isascii() and scheme[0].isalpha()
+            and all((c.isascii() and c.isalnum()) or c in "+-." for c in scheme[1:]))
+
+
+assert all(is_probable_absolute_iri(v) for v in SPECIAL_IRI.values())
+assert not any(is_probable_absolute_iri(v) or v.startswith("_:") for v in SPECIAL_PLAIN.values())
+
+
 def lex(t):
     if t[0] == "I":
+        if t[1] in SPECIAL_IRI:
+            return SPECIAL_IRI[t[1]]
         return RDF_TYPE if t[1] == 0 else "http://e/i%d" % t[1]
     if t[0] == "P":
+        if t[1] in SPECIAL_PLAIN:
+            return SPECIAL_PLAIN[t[1]]
         return "a" if t[1] == 0 else ("v%d" % t[1] if t[1] < 100 else str(t[1]))
     if t[1] == 0:
         return "_:u%d" % t[2]
@@ -148,6 +169,8 @@ class Renderer:
         if t[0] == "I":
             if t[1] == 0:
                 return "<%s>" % RDF_TYPE
+            if t[1] in SPECIAL_IRI:
+                return ('"%s"' if pos == "o" and r.random() < 0.3 else "<%s>") % lex(t)
             if self.ex_ok and r.random() < 0.4:
                 return "ex:i%d" % t[1]
             return "<http://e/i%d>" % t[1]
@@ -339,7 +362,7 @@ class Matcher:
 
     def __init__(self, fixed, identity=()):
         self.fixed = set(fixed)
-        self.map = {n: n for n in identity if n and BN_RE.match(n)}
+        self.map = {n: n for n in identity if n and n.startswith("_:")}
         self.budget_hit = False
 
     def prune(self, live):
@@ -347,7 +370,8 @@ class Matcher:
         self.map = {a: b for a, b in self.map.items() if a in live}
 
     def ren(self, t):
-        return t is not None and t not in self.fixed and BN_RE.match(t) is not None
+        """renamable: a blank node that was not present initially (whatever the executor calls it)"""
+        return t is not None and t not in self.fixed and t.startswith("_:")
 
     def match(self, A, B):
         """A, B: lists of tuples of strings/None.  True iff some extension of the renaming maps A onto B."""
@@ -371,8 +395,11 @@ class Matcher:
             return sorted(out, key=repr)
         sa = {n: sig(n, A) for n in a_new}
         sb = {n: sig(n, B) for n in b_new}
-        label = lambda n: BN_RE.match(n).group(2)
-        cand = {n: [m for m in b_new if label(m) == label(n) and sb[m] == sa[n]] for n in a_new}
+        def label(n):
+            m = BN_RE.match(n)
+            return m.group(2) if m else None
+        cand = {n: [m for m in b_new if (label(n) is None or label(m) is None or label(m) == label(n)) and sb[m] == sa[n]]
+                for n in a_new}
         if any(not c for c in cand.values()):
             return False
         order = sorted(a_new, key=lambda n: len(cand[n]))
@@ -420,9 +447,15 @@ def expected_outcome(entry, kind, acc, ins, dele):
         return ["rows", 0]
     if entry == "hu":
         if not acc:
-            return ["str", "Update Failed"]
-        return ["str", "Update Successful" if kind == "alias" else "Update Successful (inserted %d, deleted %d)" % (ins, dele)]
+            return ["hu", False]
+        return ["hu", True] if kind == "alias" else ["hu", True, ins, dele]
     return ["ok", ins, dele] if acc else ["err"]
+
+
+def norm_hu(text):
+    """handle_update's answer: success or failure, and the two counts when it reports them."""
+    nums = [int(x) for x in re.findall(r"\d+", text)]
+    return ["hu", text.startswith("Update Successful")] + nums
 
 
 def impl_outcome(r):
@@ -430,6 +463,8 @@ def impl_outcome(r):
         return ["err"]
     if r[0] == "rows":
         return ["rows", 0]
+    if r[0] == "str":
+        return norm_hu(r[1])
     return list(r)
 
 
@@ -441,7 +476,8 @@ P = lambda n: ["P", n]
 SUBJ = [I(1), I(2), I(3), I(4)]
 PRED = [I(5), I(6), I(7)]
 GNAMES = [I(8), I(9), P(3)]
-OBJ = SUBJ + [P(1), P(2), I(8), P(142)]
+OBJ = SUBJ + [P(1), P(2), P(3), I(8), P(142)]
+BORDER = [I(30), I(31), I(32), I(33), P(30), P(31), P(32), P(33), P(34), P(35)]
 VARS = [1, 2, 3, 4, 5]
 
 
@@ -455,7 +491,7 @@ def gen_init(rng):
     for _ in range(n):
         s = rng.choice(SUBJ + SUBJ + bns + [P(1)] + seeds[:1])
         p = rng.choice(PRED + PRED + [I(0), P(2)])
-        o = rng.choice(OBJ + bns + seeds[:2])
+        o = rng.choice(OBJ + bns + seeds[:2]) if rng.random() < 0.8 else rng.choice(BORDER)
         g = None if rng.random() < 0.55 else rng.choice(GNAMES)
         quads.append([s, p, o, g])
     graphs = [g for g in GNAMES + [I(10)] if rng.random() < 0.3]
@@ -510,6 +546,8 @@ def gen_template(rng, vs, insert, kw_a=False, allow_var=True):
         if insert and pos in ("s", "o") and k < 0.72:
             return ["B", rng.choice([1, 1, 2])]
         pool = {"s": SUBJ + [P(1)], "p": PRED, "o": OBJ}[pos]
+        if rng.random() < 0.06:
+            pool = BORDER
         return ["C", rng.choice(pool)]
     p = tt("p")
     if kw_a and rng.random() < 0.6:
@@ -696,7 +734,7 @@ def evaluate(ctx, binpath, cases, stream, report=True):
             if known_kw_a(req) and (mcode == 0):
                 in_known = True
             changed = (iq != [tuple(q) for q in prev["q"]] or ig != prev["g"])
-            if io[0] in ("ok",) or (io[0] == "str" and io[1] != "Update Failed"):
+            if io[0] in ("ok",) or (io[0] == "hu" and io[1]):
                 st["accepted"] += 1
             elif io[0] != "rows":
                 st["rejected"] += 1
@@ -704,7 +742,7 @@ def evaluate(ctx, binpath, cases, stream, report=True):
                 st["changed"] += 1
                 if io[0] == "ok" and io[1] + io[2] > 0:
                     nontrivial = True
-            if any(BN_RE.match(x or "") for q in iq for x in q):
+            if any((x or "").startswith("_:") for q in iq for x in q):
                 st["bnode_steps"] += 1
             # --- the Spec is the oracle (until a step of the known class has been executed)
             if not in_known:
@@ -855,6 +893,27 @@ def catalogue():
     return reqs
 
 
+def legality_battery():
+    """Every kind of bound value x every variable position of a template: the value is bound by the WHERE clause
+    from the object position of a quad and used as subject, predicate, graph name (and object) of an INSERT template;
+    the dataset makes some plain values legal (already a subject / a predicate / an existing graph)."""
+    V = lambda n: ["V", n]
+    C = lambda t: ["C", t]
+    values = BORDER + [I(1), I(8), P(1), P(2), P(3), P(4), P(142), ["N", 0, 1], ["N", 3, 1]]
+    cases = []
+    for ctxno, extra in enumerate([[], [[P(1), I(5), I(2), None], [I(2), P(2), I(2), None], [I(2), I(5), I(2), P(3)],
+                                        [P(30), I(5), I(2), None], [I(2), P(32), I(2), I(9)], [I(2), I(5), I(2), P(31)]]]):
+        for val in values:
+            init = [[I(1), I(6), val, None]] + extra
+            w = [[[None, [[C(I(1)), C(I(6)), V(1)]]]]]
+            ins = [[V(1), C(I(7)), C(I(3)), None], [C(I(3)), V(1), C(I(3)), None], [C(I(3)), C(I(7)), C(I(3)), V(1)],
+                   [C(I(4)), C(I(7)), V(1), None]]
+            for q in ins:
+                cases.append({"init": init, "graphs": [P(33)] if ctxno else [], "seed": [],
+                              "reqs": [{"op": {"form": "IW", "del": [], "ins": [q], "where": w}, "entry": "xu", "decl": [], "kind": "ok"}]})
+    return cases
+
+
 EX_INIT = {"init": [[I(1), I(5), I(2), None], [I(1), I(5), P(1), None], [I(2), I(6), I(1), I(8)], [["N", 0, 1], I(5), I(3), None],
                     [I(2), I(5), I(8), None]],
            "graphs": [I(9)], "seed": [["N", 2, 1]]}
@@ -945,8 +1004,11 @@ def run(ctx):
     evaluate(ctx, binpath, ex, "exhaustive_len%d" % L)
     ctx.coverage["exhaustive"] = True
     ctx.coverage["exhaustive_scope"] = "all %d^%d histories of length %d over a catalogue of %d requests (every form, rejected and malformed requests, the executor hook) on a fixed 5-quad dataset" % (len(cat), L, L, len(cat))
+    lb = legality_battery()
+    evaluate(ctx, binpath, lb, "legality_exhaustive")
+    ctx.coverage["exhaustive_scope"] += "; legality battery: %d single-step cases (19 kinds of bound value incl. lexical forms at the border of the IRI test x 4 template positions x 2 datasets)" % len(lb)
     # random histories
-    n = 4000 if ctx.thorough else 400
+    n = 3000 if ctx.thorough else 300
     rnd = [gen_case(ctx.rng) for _ in range(n)]
     v = evaluate(ctx, binpath, rnd, "random")
     prep0 = prepare(rnd[0], ctx.rng)[0]
